@@ -1081,11 +1081,11 @@ def _enclosing_if(root, node) -> Optional[ast.If]:
 
 # ---------------------------------------------------------------------------------------------- self-test
 C05_ADJUDICATED = {
-    "basics/import_hierarchy.py::ImportHierarchy.parse_import_path_from_module_worklist::matched_nodes::return under `name_to_be_matched == '*'`":
+    "basics/import_hierarchy.py::ImportHierarchy.parse_import_path_from_module_worklist::`matched_nodes`::return under `name_to_be_matched == '*'`":
         "wildcard component: the whole current work-list is the answer, nothing further is matched",
-    "basics/import_hierarchy.py::ImportHierarchy.parse_import_path_from_module_worklist::matched_nodes::return under `len(matched_nodes) == 0`":
+    "basics/import_hierarchy.py::ImportHierarchy.parse_import_path_from_module_worklist::`matched_nodes`::return under `len(matched_nodes) == 0`":
         "no node matches this component: the remaining path is handed back to the caller",
-    "basics/import_hierarchy.py::ImportHierarchy.parse_import_path_from_module_worklist::matched_nodes::rebound `matched_nodes = []`":
+    "basics/import_hierarchy.py::ImportHierarchy.parse_import_path_from_module_worklist::`matched_nodes`::rebound `matched_nodes = []`":
         "one match list per path component; the matches of the last component are the result by design",
 }
 
